@@ -487,6 +487,22 @@ theorem bv_bitset_semantics {a b : BV.Bits} (hl : a.length = b.length) (n : Nat)
   ⟨BV.toNat_lt a, BV.toNat_bShl a n, BV.toNat_bShr a n, BV.toNat_bNot a, (BV.toNat_bitwise hl).1, (BV.toNat_bitwise hl).2.1,
     (BV.toNat_bitwise hl).2.2, BV.toNat_inj hl⟩
 
+/-- (round 3) the conversion of a block to `std::bitset<B>` (`getRepr`, behind `operator bitset()`, `~ << >>` of a block
+    and all compound assignments) is exact for **every** block size: the block rebuilt from the number it stands for is
+    the block itself, and only the low `B` bits of a number reach a block.  A conversion passing through a `W`-bit
+    machine word (`BV.viaWord`: `to_ullong()` / `bitset(unsigned long long)`, `W = 64`) keeps exactly the bits below
+    `W`; it is exact for all blocks of width `B` iff `B ≤ W` — block sizes up to the word size cannot tell the two
+    apart, every larger one can (hence the block sizes 32|33, 64|65, 128|129 of the differential run). -/
+theorem bv_conversion_exact (v : BV.Bits) (i W n : Nat) :
+    BV.ofNat B (BV.toNat (BV.getRepr B v i)) = BV.getRepr B v i ∧
+      BV.toNat (BV.ofNat B n) = n % 2 ^ B ∧
+      (∀ (a : BV.Bits) (j : Nat), (BV.viaWord W a).getD j false = (decide (j < W) && a.getD j false)) ∧
+      ((∀ a : BV.Bits, a.length = B → BV.viaWord W a = a) ↔ B ≤ W) := by
+  refine ⟨?_, BV.toNat_ofNat B n, BV.getD_viaWord W, BV.viaWord_exact_iff W B⟩
+  have := BV.ofNat_toNat (BV.getRepr B v i)
+  rw [BV.length_getRepr] at this
+  exact this
+
 /-- `getBit_addr_inj`: distinct (block, bit) pairs are distinct bits -/
 theorem bv_getBit_addr_inj {i j i' j' : Nat} (hj : j < B) (hj' : j' < B) (h : i * B + j = i' * B + j') : i = i' ∧ j = j' :=
   BV.addr_inj hj hj' h
@@ -496,6 +512,8 @@ example : BV.abs 3 (BV.run 3 [] [.resize 2 false, .setOne 0 1 true, .assignBits 
 example : ∃ v : BV.Bits, BV.Inv 3 v ∧ 1 < BV.size 3 v := ⟨BV.mk 3 2, by unfold BV.Inv; decide, by decide⟩
 example : BV.toNat [true, false, true] = 5 ∧ BV.toNat (BV.bShl [true, false, true] 1) = 2 ∧ BV.toNat (BV.bShr [true, false, true] 2) = 1 := by
   decide
+example : BV.viaWord 2 [true, false, true] = [true, false, false] ∧ BV.viaWord 3 [true, false, true] = [true, false, true] ∧
+    BV.ofNat 3 13 = [true, false, true] := by decide
 example : BV.ofVector 3 [true, false, true, true] = none ∧
     (BV.ofVector 3 [true, false, true, true, true, false]).map (BV.abs 3) = some [[true, false, true], [true, true, false]] := by
   decide
